@@ -213,7 +213,15 @@ impl BitW {
         self.put(b as u64, 1)
     }
     pub fn uvlc(&mut self, v: u32) {
-        // value v encoded as leadingZeros zeros, a one, then leadingZeros bits of (v+1 - 2^lz)
+        // value v encoded as leadingZeros zeros, a one, then leadingZeros bits of (v+1 - 2^lz);
+        // 2^32-1 is the special case of the syntax (AV1 spec 4.10.3): 32 leading zeros, the one, and nothing after it
+        if v == u32::MAX {
+            for _ in 0..32 {
+                self.put(0, 1);
+            }
+            self.put(1, 1);
+            return;
+        }
         let x = v as u64 + 1;
         let lz = 63 - x.leading_zeros() as usize;
         for _ in 0..lz {
@@ -388,11 +396,6 @@ impl Av1Seq {
                     d.buffer_delay_length_minus_1 &= 31;
                     d.buffer_removal_time_length_minus_1 &= 31;
                     d.frame_presentation_time_length_minus_1 &= 31;
-                }
-                if let Some(e) = t.equal_picture_interval.as_mut() {
-                    if *e == u32::MAX {
-                        *e -= 1; // uvlc of 2^32-1 is not representable
-                    }
                 }
             }
             for op in s.ops.iter_mut() {
